@@ -642,6 +642,8 @@ def _mol_item(i):
 
 
 def _pair_item(i):
+    import time
+    t0 = time.time()
     job, texts = _PAIRS[i]
     out = [0, [], []]
     n = run_reactor(job, texts, out)
@@ -662,6 +664,7 @@ def _pair_item(i):
     if n and i % 17 == 0:
         out[2].append({'reactor': job['name'], 'reactants': texts, 'reactions': n})
     overlap_contract(texts, out)
+    _STAT['seconds'] = round(time.time() - t0, 2)
     return _collect(out)
 
 
@@ -737,6 +740,10 @@ def bounded(run):
                'ring fixing on products (kekule + thiele, documented Reactor/Transformer option, default on) may re-label bond orders within {1,2,4} '
                'and move H inside ring blocks that contain a patched atom or a neighbour of a removed atom; everything is exact on the '
                'twin product made with _fix_rings=False from the same match')
+    import time
+    t0 = time.time()
+    sec = run.notes.setdefault('seconds', {})
+    slow = run.notes.setdefault('slowest work items', [])
     stats = Counter()
     total = {'n': 0}
     per_clause = Counter()
@@ -764,6 +771,7 @@ def bounded(run):
               f'({len(_GRAPHS)} graphs) x every labelling of the nodes by unmatched / deleted / remaining with >= 1 deleted x 3 adjacency '
               f'insertion orders (sorted, reversed, rotated), exhaustive; first mismatch per graph is reported')
     absorb(pmap(_gd_item, range(len(_GRAPHS)), chunksize=4))
+    sec['get_deleted'] = round(time.time() - t0, 1)
 
     # ---- corpus x templates
     n_full = 1500 if thorough else 150
@@ -795,6 +803,7 @@ def bounded(run):
         run.bound(txt)
     res = pmap(_mol_item, range(len(_MOLS)), chunksize=2)
     absorb(res)
+    sec['transformers'] = round(time.time() - t0, 1)
 
     # ---- reactors: reactant pools from the classification of the full molecules
     pools = {}
@@ -830,7 +839,11 @@ def bounded(run):
               f'collections x reactant tuples drawn (seeded, <= {kpairs} per reactor, {kpairs * 3} per synthetic) from the molecules (<= 40 atoms) of the '
               f'sample that match each reactant pattern: {len(_PAIRS)} tuples ({nb} built-in); each in base / reversed order / renumbered / '
               f'disjoint numbers / with spectator / other mode; at most {CAP_R} reactions consumed per call')
-    absorb(pmap(_pair_item, range(len(_PAIRS)), chunksize=1))
+    pres = pmap(_pair_item, range(len(_PAIRS)), chunksize=1)
+    absorb(pres)
+    sec['reactors'] = round(time.time() - t0, 1)
+    for (job, texts), r_ in sorted(zip(_PAIRS, pres), key=lambda x: -x[1][4].get('seconds', 0))[:3]:
+        slow.append({'reactor': job['name'], 'reactants': texts, 'seconds': r_[4].get('seconds')})
     run.notes['post-condition statistics'] = dict(stats)
     run.notes['violations_total_before_cap'] = total['n']
     run.notes['reactor pools'] = {k: len(v) for k, v in pools.items()}
